@@ -226,6 +226,7 @@ type loopRun struct {
 	variant  Value
 	iter     *Sc
 	entryPhi map[*ssa.Phi]Value
+	skipFrame map[string]bool
 }
 
 var loopRuns = map[*loopInfo]*loopRun{}
@@ -363,6 +364,20 @@ func (fr *Frame) enterLoop(li *loopInfo, ins []*State, predIdx []int) (*State, e
 		}
 		sort.Strings(S)
 		lr.frameS[c] = S
+		onlyLocal := true
+		for ref := range log[c] {
+			if ref != "$fresh" && !r.allocRefs[ref] {
+				onlyLocal = false
+			}
+		}
+		if onlyLocal {
+			// written only through objects allocated by this run: nothing that existed
+			// before the function can change, and the obligation would be trivial
+			if lr.skipFrame == nil {
+				lr.skipFrame = map[string]bool{}
+			}
+			lr.skipFrame[c] = true
+		}
 		r.assume(hst, frameFormula(nw, old, entrySt.alloc, S))
 	}
 	for phi, v := range fresh {
@@ -480,6 +495,9 @@ func (fr *Frame) backEdge(li *loopInfo, from *ssa.BasicBlock, st *State) error {
 	}
 	sort.Strings(comps)
 	for _, c := range comps {
+		if lr.skipFrame[c] {
+			continue
+		}
 		srt := r.heap.comps[c]
 		old := r.heap.get(lr.entry, c, srt)
 		cur := r.heap.get(st, c, srt)
@@ -773,7 +791,7 @@ func (fr *Frame) execBlock(b *ssa.BasicBlock, st *State) error {
 				}
 				vals = append(vals, v)
 			}
-			fr.rets = append(fr.rets, retRec{st: st.clone(), vals: vals})
+			fr.rets = append(fr.rets, retRec{st: st.clone(), vals: vals, pos: posLabel(r, x.Pos())})
 		case *ssa.Panic:
 			if r.safety {
 				r.addOblig(&Oblig{Name: fr.oblName("safe.panic", posLabel(r, x.Pos())), Kind: "safe.panic", Func: r.eng.fnName(fr.fn), Text: "explicit panic is unreachable", Guard: st.guard, Goal: "false"})
